@@ -143,7 +143,11 @@ func c14Purity(c *core.Ctx) {
 	runtime.GOMAXPROCS(old)
 	cmpRuns(c, "rerun-after-others", model, fmt.Sprintf("fresh object after %d other runs, GOMAXPROCS=%d", hist, procs), ref, o3)
 	// 4: object reuse with different parameters in between
-	alt := GenRun(model, c.R, N, P, N, T, wc)
+	altP := P
+	if c.R.Bool(0.5) {
+		altP = 1 + c.R.Intn(N+1) // also another NUMBER of parameter sets than the run under test
+	}
+	alt := GenRun(model, c.R, N, altP, N, T, wc)
 	pa, _ := PrepareOn(p1.Model, alt)
 	pa.Exec()
 	p4, _ := PrepareOn(p1.Model, run)
